@@ -4,7 +4,7 @@
      done-notifications in order, frame text, oracle inputs).
    Observation = T [ T [per command: T [reply] | T [L 9] (connection dead / no reply)] ; L connection_alive ]. *)
 From Coq Require Export String.
-From Coq Require Import List NArith Bool Ascii.
+From Coq Require Import List NArith ZArith Bool Ascii.
 From AdltV Require Import Base.Obs Base.Res Base.MachInt.
 From AdltV Require Export Remote.Dispatch Remote.DispatchTick.
 Import ListNotations.
@@ -25,19 +25,40 @@ Fixpoint bytes_of (s : string) : list N :=
   end.
 
 Definition o0 : orc :=
-  {| o_open := OpenErr; o_archive := false; o_nfiles := 1; o_stream := StreamErr; o_search_ok := false; o_nmsgs := 0; o_json := JBad; o_fs_ok := false |}.
+  {| o_open := OpenErr; o_archive := false; o_nfiles := 1; o_stream := StreamErr; o_search_ok := false; o_nmsgs := 0; o_json := JBad; o_fs := fs0 |}.
 Definition oo (r : open_res) : orc :=
-  {| o_open := r; o_archive := false; o_nfiles := 1; o_stream := StreamErr; o_search_ok := false; o_nmsgs := 0; o_json := JBad; o_fs_ok := false |}.
+  {| o_open := r; o_archive := false; o_nfiles := 1; o_stream := StreamErr; o_search_ok := false; o_nmsgs := 0; o_json := JBad; o_fs := fs0 |}.
 (* open with the number of files taken / the archive path *)
 Definition oof (r : open_res) (archive : bool) (nfiles : N) : orc :=
-  {| o_open := r; o_archive := archive; o_nfiles := nfiles; o_stream := StreamErr; o_search_ok := false; o_nmsgs := 0; o_json := JBad; o_fs_ok := false |}.
+  {| o_open := r; o_archive := archive; o_nfiles := nfiles; o_stream := StreamErr; o_search_ok := false; o_nmsgs := 0; o_json := JBad; o_fs := fs0 |}.
 Definition os (r : stream_res) : orc :=
-  {| o_open := OpenErr; o_archive := false; o_nfiles := 1; o_stream := r; o_search_ok := false; o_nmsgs := 0; o_json := JBad; o_fs_ok := false |}.
+  {| o_open := OpenErr; o_archive := false; o_nfiles := 1; o_stream := r; o_search_ok := false; o_nmsgs := 0; o_json := JBad; o_fs := fs0 |}.
 (* id commands: search body ok?, number of collected messages *)
 Definition oi (search_ok : bool) (nmsgs : N) : orc :=
-  {| o_open := OpenErr; o_archive := false; o_nfiles := 1; o_stream := StreamErr; o_search_ok := search_ok; o_nmsgs := nmsgs; o_json := JBad; o_fs_ok := false |}.
-Definition oj (j : json_shape) (fs_ok : bool) : orc :=
-  {| o_open := OpenErr; o_archive := false; o_nfiles := 1; o_stream := StreamErr; o_search_ok := false; o_nmsgs := 0; o_json := j; o_fs_ok := fs_ok |}.
+  {| o_open := OpenErr; o_archive := false; o_nfiles := 1; o_stream := StreamErr; o_search_ok := search_ok; o_nmsgs := nmsgs; o_json := JBad; o_fs := fs0 |}.
+(* plugin_cmd: shape of the JSON body *)
+Definition oj (j : json_shape) : orc :=
+  {| o_open := OpenErr; o_archive := false; o_nfiles := 1; o_stream := StreamErr; o_search_ok := false; o_nmsgs := 0; o_json := j; o_fs := fs0 |}.
+(* fs: shape of the JSON body + what the harness found in the environment for the path (its own OS calls / the
+   trusted archive helpers called in-process, before the command is sent) *)
+Definition ofs (j : json_shape) (f : fs_orc) : orc :=
+  {| o_open := OpenErr; o_archive := false; o_nfiles := 1; o_stream := StreamErr; o_search_ok := false; o_nmsgs := 0; o_json := j; o_fs := f |}.
+(* a file time: not available | signed nanoseconds relative to the epoch given as (before the epoch?, magnitude) *)
+Definition tnone : time_res := None.
+Definition tm (before : bool) (ns : N) : time_res := Some (if before then Z.opp (Z.of_N ns) else Z.of_N ns).
+Definition fk (n : N) : fkind := match n with 0 => KDir | 1 => KFile | 2 => KSymlink | _ => KOther end.
+Definition ftg (n : N) : ftarget := match n with 0 => TgDir | 1 => TgFile | 2 => TgOther | _ => TgErr end.
+Definition mok (k tg len : N) (mt ct : time_res) : meta_res :=
+  MetaOk {| m_kind := fk k; m_target := ftg tg; m_len := len; m_modified := mt; m_created := ct |}.
+Definition mnf : meta_res := MetaErr IoNotFound.
+Definition mer : meta_res := MetaErr IoOther.
+Definition rdn : readdir_res := RdErr IoNotFound.
+Definition rde : readdir_res := RdErr IoOther.
+Definition fcmd (n : N) : fs_cmd := match n with 0 => FsCmdStat | 1 => FsCmdReadDir | _ => FsCmdOther end.
+Definition fso (has : bool) (cmd : N) (path : string) (meta : meta_res) (rd : readdir_res)
+    (ex su mu op : bool) (l : option (list string)) (rc : N) (am : option (N * N)) : fs_orc :=
+  {| fo_cmd_path := has; fo_cmd := fcmd cmd; fo_path := path; fo_meta := meta; fo_readdir := rd;
+     fo_exists := ex; fo_supported := su; fo_multi := mu; fo_open_ok := op; fo_list := l; fo_rd_count := rc; fo_ameta := am |}.
 Definition it (pre : list tevent) (frame : string) (o : orc) : titem :=
   {| t_pre := pre; t_frame := frame; t_orc := o |}.
 (* filter classes of the harness templates: 1 = every message matches, 2 = no message matches *)
@@ -56,7 +77,9 @@ Definition o_ok (k : ok_kind) : otree :=
   | OkWindow old new ws we => T [L 0; L 6; T [L old; L new; L ws; L we]]
   | OkStop id => T [L 0; L 7; T [L id]]
   | OkPluginCmd => T [L 0; L 8; T []]
-  | OkFs => T [L 0; L 9; T []]
+  | OkFs (FsStat ty size mt ct) => T [L 0; L 9; T [L 0; L ty; L size; L mt; L ct]]
+  | OkFs FsInnerErr => T [L 0; L 9; T [L 1]]
+  | OkFs (FsList n) => T [L 0; L 9; T [L 2; L n]]
   end.
 Definition o_err (k : err_kind) : otree :=
   match k with
